@@ -4,7 +4,8 @@
    from /repo on every run. *)
 From Coq Require Import ZArith List Bool String.
 From NQ Require Import Base.Bits Lang.Codec Lang.CodecCheck Lang.Asm Lang.AsmSem Lang.Text Lang.TextFront Lang.AsmCheck Proofs.AsmProofs.
-From NQ Require Import Lang.AsmSemQ Lang.AsmQCheck Proofs.AsmQProofs.
+From NQ Require Import Lang.AsmSemQ Lang.AsmQLog Lang.AsmQCheck Proofs.AsmQProofs Proofs.AsmQExport Proofs.AsmResProofs Proofs.AsmQMachine.
+From NQ Require Import Proofs.Bridge_AsmQ.
 From NQ Require Import Proofs.TextFrontProofs Proofs.TextFrontDecoProofs Proofs.TextFrontMacroProofs Proofs.TextFrontMeaning.
 From Gen Require Import Gen_Codec Gen_Asm.
 Import ListNotations.
@@ -212,6 +213,88 @@ Proof.
            (proj2 C03_front_tables_ok) (proj1 C03_params_ok) C03_qexempt_ok).
 Qed.
 
+(* ---------- instruction-level export of the simulation (for the end-to-end chain) ---------- *)
+
+(* the executed instructions of the assembled program, with the values their operands had, are
+   those of the source program with the inserted sets in front of each (log_rel), besides
+   everything assemble_simulates_q says *)
+Theorem C03_assemble_log_q P T :
+  wf_src_q P = true -> assemble_ir gen_params P = AOk T ->
+  forall n ss st, eqv_q gen_params (named P) ss st ->
+  exists m, (n <= m)%nat
+    /\ cfg_rel_q gen_params P (arun_q P n (QRun 0 ss)) (arun_q T m (QRun 0 st))
+    /\ log_rel gen_params P (alog_q P n (QRun 0 ss)) (alog_q T m (QRun 0 st)).
+Proof.
+  intros Hwf Hasm.
+  exact (assemble_log_q gen_params P T (proj1 C03_params_ok) C03_qexempt_ok Hwf Hasm).
+Qed.
+
+(* "nothing bad was executed" transfers from a halting source run to the assembled run, for every
+   predicate on (mnemonic, operand values) that is false of set and insensitive to label resolution *)
+Theorem C03_assemble_halts_no_bad_q P T (bad : string -> list oval -> bool) :
+  wf_src_q P = true -> assemble_ir gen_params P = AOk T ->
+  (forall vs, bad SET vs = false) ->
+  (forall mn vs vs', Forall2 (oval_rel gen_params P) vs vs' -> bad mn vs' = true -> bad mn vs = true) ->
+  forall n ss st s, eqv_q gen_params (named P) ss st ->
+  arun_q P n (QRun 0 ss) = QHalted s ->
+  (forall e, In e (alog_q P n (QRun 0 ss)) -> bad (snd (fst e)) (snd e) = false) ->
+  exists m t, arun_q T m (QRun 0 st) = QHalted t /\ eqv_q gen_params (named P) s t
+    /\ (forall e, In e (alog_q T m (QRun 0 st)) -> bad (snd (fst e)) (snd e) = false).
+Proof.
+  intros Hwf Hasm.
+  exact (assemble_halts_no_bad_q gen_params P T bad (proj1 C03_params_ok) C03_qexempt_ok Hwf Hasm).
+Qed.
+
+(* the assembler's output is in machine form: accepted by the embedding into the common semantics
+   (Bridge_AsmQ.e_qprog), for programs over the modelled mnemonics; and the assembler accepts when the
+   labels are distinct and every command finds enough unnamed R registers *)
+Theorem C03_qexempt_exact : qexempt_exact gen_exempt = true /\ bank_valid (ap_bankR gen_params) = true.
+Proof. vm_compute. split; reflexivity. Qed.
+
+Theorem C03_assemble_machine_form P T :
+  wf_src_q P = true -> modelled P = true -> banks_valid P = true -> labels_defined P = true ->
+  assemble_ir gen_params P = AOk T ->
+  exists p, e_qprog T = Some p.
+Proof. exact (assemble_machine_form gen_params P T (proj1 C03_qexempt_exact) (proj2 C03_qexempt_exact)). Qed.
+
+Theorem C03_assemble_ir_accepts P :
+  NoDup (labels_of P) ->
+  (forall c, In c P -> (need_cmd (ap_exempt gen_params) c <= List.length (free_regs gen_params (named P)))%nat) ->
+  exists T, assemble_ir gen_params P = AOk T.
+Proof. exact (assemble_ir_accepts gen_params P). Qed.
+
+(* ---------- reserved registers (assemble_subroutine(..., reserved_registers=...)) ---------- *)
+
+(* scratch registers avoid the named AND the reserved registers *)
+Theorem C03_scratch_fresh_res rsv P T :
+  assemble_ir_res gen_params rsv P = AOk T ->
+  forall k c, nth_error P k = Some c -> is_ins c = true ->
+  exists ps : list (reg * Z),
+    List.length ps = nsets gen_params (named P ++ rsv) c /\ NoDup (map fst ps) /\
+    (forall i p, nth_error ps i = Some p ->
+       nth_error T (pcmap_nm gen_params (named P ++ rsv) P k + i) = Some (set_cmd (fst p) (snd p)) /\
+       fst (fst p) = ap_bankR gen_params /\ ~ In (fst p) (named P) /\ ~ In (fst p) rsv).
+Proof. exact (scratch_fresh_res gen_params rsv P T). Qed.
+
+Theorem C03_assemble_simulates_res rsv P T :
+  wf_src P = true -> assemble_ir_res gen_params rsv P = AOk T ->
+  forall n ss st, eqv gen_params (named P ++ rsv) ss st ->
+  exists m, (n <= m)%nat /\ cfg_rel_res gen_params rsv P (arun P n (Run 0 ss)) (arun T m (Run 0 st)).
+Proof.
+  intros Hwf Hasm.
+  exact (assemble_simulates_res gen_params rsv P T (proj1 C03_params_ok) (proj2 C03_params_ok) Hwf Hasm).
+Qed.
+
+(* a reserved register keeps its value across the assembled subroutine even if the subroutine does not mention it *)
+Theorem C03_reserved_preserved rsv P T :
+  wf_src P = true -> assemble_ir_res gen_params rsv P = AOk T ->
+  forall n ss st s, eqv gen_params (named P ++ rsv) ss st -> arun P n (Run 0 ss) = Halted s ->
+  exists m t, arun T m (Run 0 st) = Halted t /\ forall r, In r rsv -> s_regs s r = s_regs t r.
+Proof.
+  intros Hwf Hasm.
+  exact (reserved_preserved gen_params rsv P T (proj1 C03_params_ok) (proj2 C03_params_ok) Hwf Hasm).
+Qed.
+
 (* non-vacuity: a program with a counted loop, consecutive labels, a label after the
    last instruction, literals at top level and as array index, bracket args and a
    register that occurs only as an index meets the hypotheses, assembles, and both
@@ -308,3 +391,10 @@ Print Assumptions C03_apply_macros_subst.
 Print Assumptions C03_assemble_simulates_q.
 Print Assumptions C03_assemble_trace_q.
 Print Assumptions C03_text_program_meaning_q.
+Print Assumptions C03_assemble_log_q.
+Print Assumptions C03_assemble_halts_no_bad_q.
+Print Assumptions C03_scratch_fresh_res.
+Print Assumptions C03_assemble_simulates_res.
+Print Assumptions C03_reserved_preserved.
+Print Assumptions C03_assemble_machine_form.
+Print Assumptions C03_assemble_ir_accepts.
